@@ -1,11 +1,30 @@
 import QcoVerif.Driver.Heap
+import QcoVerif.Driver.HeapStim
+import QcoVerif.Driver.HeapOpenQL
+import QcoVerif.Driver.HeapDraw
+import QcoVerif.Driver.Kernel
+import QcoVerif.Driver.Conn
+import QcoVerif.Driver.Ident
+import QcoVerif.Driver.Noise
 /-
-  Line-protocol driver.  `heap <cmd…>` drives a stateful build-program session; every other module
-  is stateless: `<module> <args…>` → one answer line.  Unknown input answers `bad-op`.
+  Line-protocol driver.  `heap <cmd…>` drives a stateful build-program session (extensions add
+  commands); every other module is stateless: `<module> <args…>` → one answer line.
+  Unknown input answers `bad-op`.
 -/
 open Qco Qco.Driver
 
-def stateless : List (String × (List String → String)) := []
+def stateless : List (String × (List String → String)) :=
+  [("kernel", Kernel.handle), ("conn", Conn.handle), ("ident", Ident.handle), ("noise", Noise.handle)]
+
+def heapExtensions : List (Sess → List String → Option (Sess × String)) :=
+  [HeapStim.step, HeapOpenQL.step, HeapDraw.step]
+
+def heapStep (s : Sess) (toks : List String) : Sess × String :=
+  let r := step s toks
+  if r.2 != "bad-op" then r else
+  match heapExtensions.findSome? (fun f => f s toks) with
+  | some r' => r'
+  | none => r
 
 partial def loop (h : IO.FS.Stream) (out : IO.FS.Stream) (s : Sess) : IO Unit := do
   let line ← h.getLine
@@ -13,7 +32,7 @@ partial def loop (h : IO.FS.Stream) (out : IO.FS.Stream) (s : Sess) : IO Unit :=
   let toks := (line.trimAscii.toString.splitOn " ").filter (· ≠ "")
   match toks with
   | "heap" :: rest =>
-    let (s', ans) := step s rest
+    let (s', ans) := heapStep s rest
     out.putStrLn ans
     loop h out s'
   | m :: rest =>
